@@ -82,7 +82,7 @@ okh(old(file)@, final(file)@, r), same_but_pos(old(file)@, final(file)@), final(
 r is Ok ==> rd(old(file)@.bytes, 0, 8) == sig_v() && rd(old(file)@.bytes, 8, 8) == signature2@
 @end
 
-@raw
+@raw root
 verus! {
 /// slot size write_piece asks for when storing `value`
 pub open spec fn val_need(value: Seq<u8>) -> nat {
